@@ -69,7 +69,9 @@ def run(ctx):
             lines = pr["src"].rstrip("\n").split("\n")
             # optional prefix that must not shift the report other than by its own lines
             prefix = rng.choice([[], ["; a comment", ""], ["/* multi", "line", "comment */"], ["", "", "   "], ["{", "nop ; x", "}"],
-                                 [".macro unused_zq(a) {", ".db a", "}"]])
+                                 [".macro unused_zq(a) {", ".db a", "}"],
+                                 # characters that str.splitlines() treats as line breaks but the scanner does not
+                                 ["nop ; end of page \x0c next page"], ["; a\u2028b \x85 c"], [".ascii 'x\x0bx\x1cy'"], ["; v\x1dt\x1e\u2029"]])
             lines = prefix + lines
             positions = list(range(len(prefix), len(lines) + 1))   # after the prefix (never inside its comment)
             if tier == "quick":
